@@ -3,7 +3,7 @@
 congestion controls)."""
 from __future__ import annotations
 
-from props.c07_core import Drv, Entity
+from props.c07_core import Drv, Entity, P, R
 
 from happysimulator.components.deployment import (AutoScaler, CanaryDeployer, CanaryStage, ErrorRateEvaluator,
                                                   LatencyEvaluator, QueueDepthScaling, RollingDeployer, StepScaling,
@@ -45,8 +45,8 @@ class _AutoScalerDrv(_DeployBase):
     def build(self, cfg):
         self.fleet(cfg, n=1)
         self.asc = AutoScaler("autoscaler", load_balancer=self.lb, server_factory=self.factory, policy=self.policy(),
-                              min_instances=1, max_instances=3, evaluation_interval=0.5, scale_out_cooldown=1.0,
-                              scale_in_cooldown=1.0)
+                              min_instances=1, max_instances=3, evaluation_interval=P(0.5), scale_out_cooldown=P(1.0),
+                              scale_in_cooldown=P(1.0))
         return [*self.servers, self.lb, self.asc]
 
     def init(self):
@@ -84,7 +84,7 @@ class _CanaryDrv(_DeployBase):
         self.fleet(cfg, n=2)
         self.cd = CanaryDeployer("canary", load_balancer=self.lb, server_factory=self.factory,
                                  stages=[CanaryStage(0.25, 1.0), CanaryStage(1.0, 1.0)],
-                                 metric_evaluator=self.evaluator(), evaluation_interval=0.5)
+                                 metric_evaluator=self.evaluator(), evaluation_interval=P(0.5))
         return [*self.servers, self.lb, self.cd]
 
     def request(self, i, op):
@@ -129,7 +129,7 @@ class RollingDeployerDrv(_DeployBase):
                 _n[0] += 1
                 return _SickServer(name) if _n[0] == 2 else self.factory(name)
         self.rd = RollingDeployer("rolling", load_balancer=self.lb, server_factory=factory, batch_size=1,
-                                  health_check_interval=0.5, healthy_threshold=2, max_failures=1)
+                                  health_check_interval=P(0.5), healthy_threshold=2, max_failures=1)
         return [*self.servers, self.lb, self.rd]
 
     def request(self, i, op):
@@ -148,7 +148,7 @@ class _CPUDrv(Drv):
     ops = ("task", "task_high")
 
     def policy(self):
-        return FairShare(quantum_s=0.25)
+        return FairShare(quantum_s=P(0.25))
 
     def build(self, cfg):
         self.cpu = CPUScheduler("cpu", policy=self.policy(), context_switch_s=cfg.L / 8)
@@ -167,7 +167,7 @@ class CPUSchedulerPriorityDrv(_CPUDrv):
     covers = ("CPUScheduler", "PriorityPreemptive")
 
     def policy(self):
-        return PriorityPreemptive(quantum_s=0.25)
+        return PriorityPreemptive(quantum_s=P(0.25))
 
 
 class _DiskDrv(Drv):
@@ -219,8 +219,8 @@ class DNSResolverDrv(Drv):
     def build(self, cfg):
         self.dns = DNSResolver("dns", cache_capacity=1, root_latency_s=cfg.L / 4, tld_latency_s=cfg.L / 4,
                                auth_latency_s=cfg.L / 2,
-                               records={"a.example": DNSRecord("a.example", "10.0.0.1", ttl_s=0.75),
-                                        "b.example": DNSRecord("b.example", "10.0.0.2", ttl_s=0.75)})
+                               records={"a.example": DNSRecord("a.example", "10.0.0.1", ttl_s=P(0.75)),
+                                        "b.example": DNSRecord("b.example", "10.0.0.2", ttl_s=P(0.75))})
         return [self.dns]
 
     def request(self, i, op):
@@ -255,21 +255,21 @@ class GarbageCollectorSTWDrv(_GCDrv):
     covers = ("GarbageCollector", "StopTheWorld")
 
     def strategy(self, cfg):
-        return StopTheWorld(base_pause_s=cfg.L, interval_s=1.0)
+        return StopTheWorld(base_pause_s=cfg.L, interval_s=P(1.0))
 
 
 class GarbageCollectorConcurrentDrv(_GCDrv):
     covers = ("GarbageCollector", "ConcurrentGC")
 
     def strategy(self, cfg):
-        return ConcurrentGC(pause_s=cfg.L / 2, interval_s=0.5)
+        return ConcurrentGC(pause_s=cfg.L / 2, interval_s=P(0.5))
 
 
 class GarbageCollectorGenerationalDrv(_GCDrv):
     covers = ("GarbageCollector", "GenerationalGC")
 
     def strategy(self, cfg):
-        return GenerationalGC(minor_pause_s=cfg.L / 4, major_pause_s=cfg.L, minor_interval_s=0.5,
+        return GenerationalGC(minor_pause_s=cfg.L / 4, major_pause_s=cfg.L, minor_interval_s=P(0.5),
                               major_threshold=0.75)
 
 
@@ -303,7 +303,7 @@ class _TCPDrv(Drv):
 
     def build(self, cfg):
         self.tcp = TCPConnection("tcp", congestion_control=self.cc(), base_rtt_s=cfg.L, loss_rate=0.25,
-                                 initial_cwnd=2.0, initial_ssthresh=4.0, retransmit_timeout_s=0.5)
+                                 initial_cwnd=2.0, initial_ssthresh=4.0, retransmit_timeout_s=P(0.5))
         return [self.tcp]
 
     def request(self, i, op):
